@@ -1,0 +1,17 @@
+//go:build verif
+
+package frugal
+
+import "github.com/cloudwego/frugal/internal/reflect"
+
+// Verification hooks, only present with build tag "verif".
+
+type VerifHooks = reflect.VerifHooks
+
+func VerifSetHooks(h *VerifHooks) { reflect.VerifSetHooks(h) }
+
+func VerifDrain() []string { return reflect.VerifDrain() }
+
+func VerifCounters() []int64 { return reflect.VerifCounters() }
+
+func VerifLimits() (maxDepth, spanBlock int) { return reflect.VerifLimits() }
